@@ -38,8 +38,10 @@ Norm(tokens, acc) ==
 Resolve(tokens) == Norm(tokens, <<>>)
 
 TokText(tk) == IF tk = UP THEN "" ELSE IF tk[2] < 0 THEN KeyNames[tk[1]] ELSE KeyNames[tk[1]] \o "[" \o ToString(tk[2]) \o "]"
-RECURSIVE Join(_)
-Join(tokens) == IF Len(tokens) = 1 THEN TokText(tokens[1]) ELSE TokText(tokens[1]) \o "." \o Join(Tail(tokens))
+RECURSIVE JoinT(_)
+JoinT(tokens) == IF Len(tokens) = 1 THEN TokText(tokens[1]) ELSE TokText(tokens[1]) \o "." \o JoinT(Tail(tokens))
+\* a key that ENDS in '..' ('a.b..' = the parent level of a.b): the final empty token is written with both its dots
+Join(tokens) == JoinT(tokens) \o (IF tokens[Len(tokens)] = UP THEN "." ELSE "")
 
 \* ---- the tree
 \* The last segment of a path may name a list by its plain name (d['l'] is the whole list l[0], l[1], ...):
